@@ -7,7 +7,7 @@ from dataflows.helpers.extended_json import ejson
 
 PROP = 'C07'
 PROPS_V = 'Props/C07.v'
-COQ_IMPORTS = ['Base.Str', 'Base.Value', 'IO.EJson', 'IO.EJsonInst', 'IO.Stream']
+COQ_IMPORTS = ['Base.Str', 'Base.Value', 'IO.EJson', 'IO.EJsonInst', 'IO.JsonText', 'IO.Stream']
 RULE = ('cases = (a) values of every type the extended JSON claims (decimals, dates, times, naive/zone-aware datetimes with '
         'any UTC offset, durations, nested arrays/objects, unicode) through ejson.dumps/loads, (b) packages streamed to a '
         'file and read back, (c) run/delete histories of flows with one or two chained checkpoints, with a fresh Flow '
@@ -135,7 +135,8 @@ def run_impl(case):
             back = ejson.loads(ejson.dumps(v, sort_keys=True, ensure_ascii=True))
         except Exception as e:
             return {'error': err_code(e), 'exc': '%s: %s' % (type(e).__name__, e)}
-        return {'back': enc(back), 'same': type_exact_eq(v, back)}
+        text = ejson.dumps(v, sort_keys=True, ensure_ascii=True)
+        return {'back': enc(back), 'same': type_exact_eq(v, back), 'text': text}
     if k == 'stream':
         f = os.path.join(scratch(), 's_%s.ndjson' % digest(case))
         res = [{'name': 'r%d' % i, 'fields': [{'name': 'a', 'type': 'integer'}, {'name': 'v', 'type': 'any'}], 'rows': rows_dec(rows)}
@@ -257,13 +258,42 @@ def sorted_keys(v):
     return v
 
 
+def cjson(t):
+    """Gallina literal of a parsed JSON text (objects as ('obj', pairs)); None if it holds a float"""
+    if t is None:
+        return 'JNull'
+    if isinstance(t, bool):
+        return '(JBool %s)' % cbool(t)
+    if isinstance(t, int):
+        return '(JInt %s)' % cZ(t)
+    if isinstance(t, float):
+        return None
+    if isinstance(t, str):
+        return '(JStr %s)' % cstr(t)
+    if isinstance(t, list):
+        xs = [cjson(x) for x in t]
+        return None if any(x is None for x in xs) else '(JArr %s)' % clist(xs)
+    if isinstance(t, tuple) and t[0] == 'obj':
+        xs = [(k, cjson(x)) for k, x in t[1]]
+        return None if any(x is None for _, x in xs) else '(JObj %s)' % clist([cpair(cstr(k), x) for k, x in xs])
+    return None
+
+
 def coq_term(case, out):
     k = case['kind']
     if k == 'value':
         v = dec(case['value'])
         if 'error' in out or not modelable(v):
             return None
-        return 'veqb (rt_model %s) %s' % (cval(sorted_keys(v)), cval(dec(out['back'])))
+        t = 'veqb (rt_model %s) %s' % (cval(sorted_keys(v)), cval(dec(out['back'])))
+        # the JSON text layer: the printer model writes exactly the text the json module wrote, and the parser model reads
+        # it as the tree the json module reads (no object hook); trees with binary floats are outside the text model
+        tree = json.loads(out['text'], object_pairs_hook=lambda kv: ('obj', kv))
+        cj = cjson(tree)
+        if cj is not None:
+            t += ' && str_eqb (jprint %s) %s && match jparse %s with Some j => json_eqb j %s | None => false end' % (
+                cj, cstr(out['text']), cstr(out['text'] + '\n'), cj)
+        return t
     if k == 'stream':
         shape = clist([clist(['tt'] * len(r)) for r in case['pkg']])
         return ('list_eqb Bool.eqb (map (fun l => match l with [] => true | _ => false end) '
